@@ -48,7 +48,7 @@ struct Ctx { const DataLayout *DL; ModuleSlotTracker *MST; std::map<const Value*
 static json::Value operand(Ctx &C, const Value *V){
   json::Object o;
   if (auto *CI = dyn_cast<ConstantInt>(V)) { o["k"]="int"; o["v"]=apStr(CI->getValue()); o["sv"]=apStr(CI->getValue(),true); o["bits"]=(int64_t)CI->getBitWidth(); }
-  else if (auto *CF = dyn_cast<ConstantFP>(V)) { o["k"]="fp"; o["v"]=CF->getValueAPF().convertToDouble(); }
+  else if (auto *CF = dyn_cast<ConstantFP>(V)) { o["k"]="fp"; double dv = (&CF->getValueAPF().getSemantics()==&APFloat::IEEEdouble()) ? CF->getValueAPF().convertToDouble() : (&CF->getValueAPF().getSemantics()==&APFloat::IEEEsingle() ? (double)CF->getValueAPF().convertToFloat() : 0.0); if (dv==dv && dv<1.7e308 && dv>-1.7e308) o["v"]=dv; else o["v"]="nonfinite"; }
   else if (isa<ConstantPointerNull>(V)) { o["k"]="null"; }
   else if (isa<UndefValue>(V)) { o["k"]="undef"; }
   else if (auto *F = dyn_cast<Function>(V)) { o["k"]="func"; o["v"]=F->getName().str(); }
